@@ -396,7 +396,11 @@ func mutSites(v reflect.Value, path string, out *[]mutSite) {
 
 // structuralMutation copies m and edits one place of the copy found by reflection.
 func structuralMutation(t *rapid.T, m sdk.Msg, ti int) (sdk.Msg, string) {
-	o := msgFactories[ti]()
+	return structuralMutationOf(t, m)
+}
+
+func structuralMutationOf(t *rapid.T, m sdk.Msg) (sdk.Msg, string) {
+	o := reflect.New(reflect.TypeOf(m).Elem()).Interface().(sdk.Msg)
 	if err := proto.Unmarshal(protoOf(m), o); err != nil {
 		return nil, ""
 	}
